@@ -27,13 +27,18 @@ def join(d, n):
 
 
 @st.composite
-def codebases(draw, max_files=12, min_platforms=0, max_platforms=4, symlinks=True, want_counted=True):
+def codebases(draw, max_files=12, min_platforms=0, max_platforms=4, symlinks=True, want_counted=True, ext_headers=False, header_bias=False):
+    """`ext_headers`: some headers live in ../ext (outside the code base root).
+    `header_bias`: more headers that define macros, more includes (C08/C10)."""
     dirs = draw(st.lists(st.sampled_from(DIRS), min_size=1, max_size=5, unique=True))
-    nfiles = draw(st.integers(1, max_files))
+    nfiles = draw(st.integers(2 if header_bias else 1, max_files))
     names = []
+    exts = C_EXT + C_EXT + [".f90", ".S"] + ([".h", ".h", ".hpp", ".c", ".cpp"] * 2 if header_bias else [])
     for i in range(nfiles):
         d = draw(st.sampled_from(dirs))
-        ext = draw(st.sampled_from(C_EXT + C_EXT + [".f90", ".S"]))
+        ext = draw(st.sampled_from(exts))
+        if ext_headers and ext in (".h", ".hpp") and draw(st.integers(0, 2)) == 0:
+            d = "../ext"
         names.append(join(d, f"f{i}{ext}"))
     headers = [n for n in names if n.endswith((".h", ".hpp"))]
     tree, extra = {}, {}
